@@ -66,7 +66,14 @@ func TestMakeReplays(t *testing.T) {
 	}
 }
 
-var extraReplays = []func(t *testing.T){makeC02Replays, makeC08Replays, makeC04Replays, makeC07Replays}
+var extraReplays = []func(t *testing.T){makeC02Replays, makeC08Replays, makeC04Replays, makeC07Replays, makeC20Replays}
+
+func makeC20Replays(t *testing.T) {
+	c := C20Case{Initial: model.Files{"_package.yml": c20Manifest, "a.yml": watchModel(0, 0), "b.yml": "Other: !record\n  fields:\n    x: int\n"},
+		Edits:  []WatchEdit{{Kind: "valid", File: "a.yml", Content: watchModel(3, 1), GapMs: 60}, {Kind: "valid", File: "a.yml", Content: watchModel(1, 0), GapMs: 0}},
+		Delays: "2:350"}
+	writeReplay(t, "C20", "slow-regeneration-overtaken", "c20", "a slow regeneration of older contents finishes after a newer one", c)
+}
 
 func makeC07Replays(t *testing.T) {
 	n := 130
